@@ -6,6 +6,10 @@
    random transport URIs are judged by TLC evaluating the reference of ClientConf.
    Record k = "conf": c (configuration as JSON), obs (projection of what the library returned).
    Record k = "face": u (transport URI as a record), obs (face kind / address / port or "err").
+   Every candidate is a regular file, a symbolic link to a file kept elsewhere, a directory, a link to a directory or a
+   socket (kind); the other file-system-object fields of a configuration (ghost, cdir, cwd, sobj, smiss, rel) tell the
+   executor what to put on disk and are not looked at by Resolve (ClientConf: P_ObjectKindIrrelevant), so CfgOf
+   does not carry them; location classes include relT / relB.
    A record's verdict is the set of failing clauses; {} = accepted. *)
 EXTENDS ClientConf, Json, IOUtils, TLCExt
 
